@@ -458,8 +458,28 @@ func runC15(t *zsim.Tape, cfg *hlib.Config) *hlib.Outcome {
 			}
 		}
 	}
+	// the main file is a module like any other as far as names go: in one scenario in ten
+	// something (main itself, or a module) imports the MAIN file's module name — under the file
+	// name main.zn, or under 主模块.zn, the name the main module is registered with. Reached from
+	// main that import closes a cycle.
+	mainAsModule := false
+	if t.Draw(10) == 9 {
+		mainAsModule = true
+		if t.Draw(2) == 1 {
+			main.Name, main.Path = "主模块", "/proj/主模块.zn"
+		}
+		importer := main
+		if x := t.Draw(len(sc.Mods) + 1); x > 0 {
+			importer = sc.Mods[x-1]
+		}
+		importer.Imports = append(importer.Imports, c15Imp{Target: main.Name})
+		byName[main.Name] = main
+	}
 	// reference model run
 	md := &c15Model{mods: byName, loaded: map[string]bool{}, loading: map[string]bool{}}
+	if mainAsModule {
+		md.loading[main.Name] = true
+	}
 	visible, ok := md.load(main)
 	var mainStmts []string
 	mainStmts = append(mainStmts, "（显示：“main”）")
